@@ -1,6 +1,7 @@
 package vc
 
 import (
+	"encoding/json"
 	"fmt"
 	"go/types"
 	"os"
@@ -45,6 +46,18 @@ func Load(repo string, patterns []string, preludeDir string) (*Engine, error) {
 	eng := &Engine{Prog: prog, Pkgs: map[string]*ssa.Package{}, Contracts: map[string]*UnitSpec{}, SpecFuns: map[string]*SpecFun{}, Lemmas: map[string]*SpecFun{}, Consts: map[string]string{}, Funcs: map[string]*ssa.Function{}, GlobalGhosts: map[string]string{"$held": "intset"}}
 	if len(pkgs) > 0 {
 		eng.Fset = pkgs[0].Fset
+	}
+	// the functions of the committed baseline (a function that is not listed is new: see Frame.spliced)
+	if preludeDir != "" {
+		if b, err := os.ReadFile(filepath.Join(filepath.Dir(preludeDir), "functions_baseline.json")); err == nil {
+			var names []string
+			if json.Unmarshal(b, &names) == nil {
+				eng.FuncBaseline = map[string]bool{}
+				for _, n := range names {
+					eng.FuncBaseline[n] = true
+				}
+			}
+		}
 	}
 	// prelude contract files (assumed contracts of dependencies, shared spec functions)
 	if preludeDir != "" {
